@@ -514,7 +514,7 @@ def run(ctx: core.Ctx):
             witness = dict(kind="time_zone", **tzp[0])
         hs = handshake_version(rng)
         ctx.evals += 1
-        announced = hs.get("server_version") if isinstance(hs, dict) else None
+        announced = hs.get("version") if isinstance(hs, dict) else None
         if announced is not None and announced != SYSTEM_VARIABLES["version"][1].encode() and announced != SYSTEM_VARIABLES["version"][1]:
             witness = witness or dict(kind="handshake-version", announced=repr(announced), variable=SYSTEM_VARIABLES["version"][1])
     finally:
